@@ -1,5 +1,51 @@
-From Verif Require Import Common Op_Model Op_Corr C06_Spec.
-Definition case := Op_Corr.case.
-Definition model_obs := Op_Corr.model_obs.
-Definition mismatches := Op_Corr.mismatches.
-Definition spec_violations (cs : list case) : list N := indices_where (fun c => negb (P c)) cs.
+(* C06_Corr.v — two kinds of cases: operator-level scenarios (model Op_Model, spec C06_Spec.P)
+   and runs of ONE hook's EnableKubernetesBindings task in an environment whose monitor
+   creations fail (model C06_Enable, spec C06_EnableSpec.P_enable). *)
+From Verif Require Import Common Op_Model Op_Corr C06_Spec C06_Enable C06_EnableSpec.
+Open Scope N_scope.
+
+Inductive case :=
+| COp (c : Op_Corr.case)
+| CEnable (h : hook) (F : fpattern)
+          (atts : list attempt)                       (* what the real task handler did, run by run *)
+          (probe : option (list (list N * list N)))   (* per binding: monitors whose Events came before / after its unlock *)
+          (bad : bool).                               (* the harness could not complete the case *)
+
+Inductive mobs := MOp (o : list sobs) | MEnable (atts : list attempt) (probe : list (list N * list N)).
+
+Definition model_obs (c : case) : mobs :=
+  match c with
+  | COp c => MOp (Op_Corr.model_obs c)
+  | CEnable h F _ _ _ => MEnable (fst (enable_task h F)) (enable_probe h F)
+  end.
+
+Definition call_eqb (a b : call) : bool :=
+  match a, b with
+  | AddOk x, AddOk y | AddFail x, AddFail y => N.eqb x y
+  | _, _ => false
+  end.
+
+Definition attempt_eqb (a b : attempt) : bool :=
+  list_eqb call_eqb (at_calls a) (at_calls b) && Bool.eqb (at_ok a) (at_ok b)
+  && list_eqb task_eqb (at_head a) (at_head b)
+  && list_eqb Bool.eqb (at_has a) (at_has b) && list_eqb Bool.eqb (at_link a) (at_link b).
+
+Definition probe_eqb : list (list N * list N) -> list (list N * list N) -> bool :=
+  list_eqb (pair_eqb (list_eqb N.eqb) (list_eqb N.eqb)).
+
+Definition agrees (c : case) : bool :=
+  match c with
+  | COp c => Op_Corr.agrees c
+  | CEnable h F atts probe bad =>
+      negb bad && list_eqb attempt_eqb (fst (enable_task h F)) atts
+      && match probe with Some pr => probe_eqb (enable_probe h F) pr | None => true end
+  end.
+
+Definition spec_ok (c : case) : bool :=
+  match c with
+  | COp c => C06_Spec.P c
+  | CEnable h F atts probe bad => P_enable h atts probe
+  end.
+
+Definition mismatches (cs : list case) : list N := indices_where (fun c => negb (agrees c)) cs.
+Definition spec_violations (cs : list case) : list N := indices_where (fun c => negb (spec_ok c)) cs.
